@@ -18,7 +18,7 @@ BUDGET = {'quick': 900, 'thorough': 1500}
 BOUNDS = {'quick': dict(out_len=3, ctx_len=2), 'thorough': dict(out_len=5, ctx_len=2)}
 ASSUMPTIONS = [
     'bounded: captured output of <= out_len characters (arbitrary scalars except NUL, including newline), <= ctx_len characters before and after the substitution (excluding quotes, backquote, backslash, `$` and parentheses, which would make it a different word)',
-    'stub core::run_pipeline (capture=true): returns the symbolic output with status 0 and counts calls; stdin/stderr handling of the real capture is C08',
+    'stub core::run_pipeline (capture=true): returns the symbolic output with a symbolic i32 status and counts calls; stdin/stderr handling of the real capture is C08',
     'do_command_substitution is driven directly on one token (the other expansion passes are C10/C12)',
     'the inner command is the fixed word `out <hex>` parsed by the real CommandLine::from_line; an unparsable inner command (`>`) is a separate instance',
 ]
@@ -84,7 +84,13 @@ def body(inst):
             calls.append((I.str_of(hlib.field(p, cl, 'line')), a[3]))
             k = len(calls) - 1
             # a call beyond the written substitutions can only come from re-reading inserted output: answer empty
-            cr = hlib.mk_struct(p, 'CommandResult', gid=0, status=0, stdout=RString(outs[k] if k < nsub else []), stderr=RString())
+            # the inner command's exit status is symbolic (0 / 1 / 128+ ...): the property replaces `$(cmd)` by cmd's output whatever
+            # cmd's status was (seed C11-4 emptied the replacement for a failing inner command)
+            st = I.ctx.bv('st%d' % k, 32)
+            I.ctx.inputs.append(('st%d' % k, st, 'i32'))
+            if not hasattr(I, 'h_sts'): I.h_sts = []
+            I.h_sts.append(st)
+            cr = hlib.mk_struct(p, 'CommandResult', gid=0, status=st, stdout=RString(outs[k] if k < nsub else []), stderr=RString())
             return Agg(None, [False, cr])
         I.stubs['run_pipeline'] = run_pipeline_stub
         if form in ('dollar', 'bad-inner-dollar'):
@@ -127,7 +133,10 @@ def body(inst):
 # ------------------------------------------------------------------------------------------------------
 def concrete(I, inst, m):
     S = lambda cs: explore.chars_to_str(m, cs)
-    return dict(head=S(I.h_head), tail=S(I.h_tail), outs=[S(o) for o in I.h_outs])
+    sts = [m.eval(st, model_completion=True).as_signed_long() for st in getattr(I, 'h_sts', [])]
+    # native side: the `out` helper exits with $OUT_STATUS; a process status is 0..255, so a non-zero model status maps to a non-zero byte
+    nst = 0 if not any(sts) else (([x & 0xff for x in sts if x][0]) or 1)
+    return dict(head=S(I.h_head), tail=S(I.h_tail), outs=[S(o) for o in I.h_outs], statuses=sts, native_status=nst)
 
 def native_token(inst, c):
     inner = ['out ' + (o.encode('utf-8').hex() or '') for o in c['outs']]
@@ -145,7 +154,7 @@ def expected_concrete(inst, c):
 def native_run(inst, c, timeout=6):
     d = tempfile.mkdtemp(prefix='cicada-verif-c11-')
     log = os.path.join(d, 'calls.jsonl')
-    nat = nativemod.Native(cwd=d, env={'HOME': '/home/u', 'PATH': HELPERS, 'ARGV_OUT': log, 'LANG': 'C.UTF-8'}, timeout=timeout)
+    nat = nativemod.Native(cwd=d, env={'HOME': '/home/u', 'PATH': HELPERS, 'ARGV_OUT': log, 'LANG': 'C.UTF-8', 'OUT_STATUS': str(c.get('native_status', 0))}, timeout=timeout)
     try:
         tag, text = native_token(inst, c)
         try:
@@ -171,6 +180,7 @@ def classify(inst, c, nr):
     if '$' in outs and inst['form'] in ('dollar',): return 'output-used-as-template'
     stripped = ''.join(o.rstrip('\n') for o in c['outs'])
     if stripped != stripped.strip(): return 'output-trimmed-both-ends'
+    if c.get('native_status'): return 'failing-inner-command:' + inst['form']
     return 'splice:' + inst['form'] + ':' + ('dq' if inst['tag'] else 'plain')
 
 def run_instance(prog, inst, tier, seed, deadline):
